@@ -106,7 +106,7 @@ class C12(core.PropertyCheck):
                 tgt = rng.choice(ctx["pages"] + ["index", "ghost"])
                 out += [f"Read :doc:`/{tgt}` for {self.words(rng, 1)}.", ""]
             elif r < 0.57:
-                out += [".. include:: /includes/shared.rst", ""]
+                out += [f".. include:: /{ctx.get('shared', 'includes/shared.rst')}", ""]
             elif r < 0.67:
                 if ctx["yaml"].startswith("includes/extracts"):
                     out += [f".. include:: /includes/extracts/{rng.choice(['foo', 'bar', 'baz'])}.rst", ""]
@@ -115,7 +115,7 @@ class C12(core.PropertyCheck):
             elif r < 0.77:
                 # now and then the file shown verbatim is itself a source file of the project (an include shown as an example)
                 # (disk histories only: what a literalinclude shows of a file with unsaved editor changes is not settled by the property)
-                shown = "/includes/shared.rst" if (ctx.get("lit_src") and rng.random() < 0.3) else "/code/sample.py"
+                shown = ("/" + ctx.get("shared", "includes/shared.rst")) if (ctx.get("lit_src") and rng.random() < 0.3) else "/code/sample.py"
                 out += [f".. literalinclude:: {shown}", "   :language: python", ""]
             elif r < 0.85:
                 out += [".. figure:: /images/a.png", "   :alt: a figure", ""]
@@ -238,7 +238,11 @@ class C12(core.PropertyCheck):
         src = {"index.txt": None}
         for p in pages:
             src[p + ".txt"] = None
-        src["includes/shared.rst"] = None
+        if kind != "corr" and rng.random() < 0.25:
+            # a file name that is not ASCII, written the way some systems hand names out (letter + combining accent): a file is
+            # found under the name it has on disk, byte for byte
+            ctx["shared"] = "includes/shared-re\u0301sume\u0301.rst"
+        src[ctx.get("shared", "includes/shared.rst")] = None
         src[yaml] = None
         if yaml.startswith("includes/extracts") and rng.random() < 0.5:
             src["includes/extracts-b.yaml"] = None
